@@ -19,16 +19,27 @@ Definition cobs_eqb (a b : cobs) : bool :=
   | _, _ => false
   end.
 
-Fixpoint c08_run (s : cstate) (steps : list c08_step) : bool :=
+Definition cphase_eqb (a b : cphase) : bool :=
+  match a, b with PhSetGet, PhSetGet | PhSetCommit, PhSetCommit | PhRaceGet, PhRaceGet | PhRacePut, PhRacePut => true | _, _ => false end.
+
+(* a thread label must name a live thread, parked at the observed engine call *)
+Definition label_ok (s : xstate) (op : cop) : bool :=
+  match op with
+  | CThread i ph => match find_thr i (x_thr s) with Some t => cphase_eqb (tphase t) ph | None => false end
+  | _ => true
+  end.
+
+Fixpoint c08_run (s : xstate) (steps : list c08_step) : bool :=
   match steps with
   | [] => true
   | st :: t =>
-      let '(s', o) := cstep s (s8_op st) in
-      cobs_eqb o (s8_obs st) && (c_cur s' =? s8_cur st) && opt_eqb beqb (c_rec s') (s8_rec st)
+      let '(s', o) := xstep s (s8_op st) in
+      label_ok s (s8_op st)
+      && cobs_eqb o (s8_obs st) && (c_cur (x_c s') =? s8_cur st) && opt_eqb beqb (c_rec (x_c s')) (s8_rec st)
       && c08_run s' t
   end.
 
-Definition c08_check (c : c08_case) : bool := c08_run (mkC (c8_init c) 0 None) (c8_steps c).
+Definition c08_check (c : c08_case) : bool := c08_run (mkX (mkC (c8_init c) 0 None) []) (c8_steps c).
 
 (* ---- the property on the implementation's own observations ---- *)
 
@@ -53,6 +64,7 @@ Definition c08_step_ok (cur floor : N) (st : c08_step) : bool :=
   && match s8_op st, s8_obs st with
      | CCompact _ _ _, OCompact h COk => h <=? floor'               (* an accepted compaction sets the floor *)
      | CCompact2 _ _, OCompact h COk => h <=? floor'
+     | CThread _ _, OCompact h COk => h <=? floor'
      | _, _ => true
      end
   && match read_rev cur (s8_op st), s8_obs st with
@@ -61,10 +73,28 @@ Definition c08_step_ok (cur floor : N) (st : c08_step) : bool :=
      | None, _ => true
      end.
 
-Fixpoint c08_orc (cur floor : N) (steps : list c08_step) : bool :=
-  match steps with
-  | [] => true
-  | st :: t => c08_step_ok cur floor st && c08_orc (s8_cur st) (floor_of (s8_rec st)) t
+(* verdict of one step: None fine, Some 1 = the floor is lowered by the unconditional Put of checkCompactRace of a
+   compaction thread (overlapping compactions, finding C08-F1), Some 0 = any other violation *)
+Definition c08_step_verdict (cur floor : N) (st : c08_step) : option N :=
+  if c08_step_ok cur floor st then None
+  else match s8_op st with
+       | CThread _ PhRacePut =>
+           (* everything but monotonicity must hold *)
+           if c08_step_ok cur 0 st && rec_wfb (s8_rec st) then Some 1 else Some 0
+       | _ => Some 0
+       end.
+
+Definition worse8 (a b : option N) : option N :=
+  match a, b with
+  | Some 0, _ | _, Some 0 => Some 0
+  | Some x, _ => Some x
+  | None, y => y
   end.
 
-Definition c08_oracle (c : c08_case) : option N := ok_if (c08_orc (c8_init c) 0 (c8_steps c)).
+Fixpoint c08_orc (cur floor : N) (steps : list c08_step) : option N :=
+  match steps with
+  | [] => None
+  | st :: t => worse8 (c08_step_verdict cur floor st) (c08_orc (s8_cur st) (floor_of (s8_rec st)) t)
+  end.
+
+Definition c08_oracle (c : c08_case) : option N := c08_orc (c8_init c) 0 (c8_steps c).
